@@ -342,12 +342,16 @@ PROPS["C01"] = {
                    "c01::c01_two_borrowed_results_alive", "c01::c01_group_partial_impl", "c01::c01_overridden_defaults_and_marker_scope",
                    # call equivalence also means: arguments arrive as a direct call would deliver them (address of an empty slice
                    # included), and an integer-coded result with a droppable payload is moved out exactly once, nothing on Err
-                   "c02::c02_args_slices", "c02::c02_strings_multibyte", "c13e::c13e_roundtrip", "c01::c01_negative_twin"],
+                   "c02::c02_args_slices", "c02::c02_args_mutable", "c02::c02_strings_multibyte", "c13e::c13e_roundtrip",
+                   "c06::c06_zero_sized_payload_with_destructor", "c01::c01_negative_twin"],
          "thorough_adds": ["c01::c01_reader_box_k4", "c01::c01_reader_ref_k4", "c01::c01_reader_arc_k4", "c01::c01_counter_box_k4",
                            "c01::c01_counter_mut_k4", "c01::c01_counter_ctxbox_k4", "c01::c01_consume_box_k3",
                            "c01::c01_consume_ctxbox_k3", "c01::c01_group_box_k4", "c01::c01_group_cast_k3", "c01::c01_group_mut_k4"],
          "timeout": 3000},
         {"id": "corpus", "crate": "gencorp", "quick": _gc_subset(0), "thorough": list(_GC), "timeout": 900},
+        # an error value that a direct call returns must come back through the object, not abort inside the glue:
+        # every i32 OS code of io::Error through the integer encoding (shared with C13)
+        {"id": "int_err", "crate": "rt", "quick": ["c13::c13_io_error_all_os_codes"], "timeout": 900},
     ],
     "negative": ["c01::c01_negative_twin"],
     "bounds": "every call sequence of length 3 (thorough 4) with the operation and all arguments symbolic at every step, symbolic "
